@@ -214,6 +214,107 @@ def members():
     return M
 
 
+# ------------------------------------------------------------------ exponential-cone probability sets (C03 only)
+def kl_members():
+    M = {}
+
+    def reg(f):
+        M[f.__name__] = f
+        return f
+
+    @reg
+    def kl_saa_newsvendor(a):
+        """KL ball around the empirical distribution, singleton supports."""
+        p = a.scen(3)
+        x = a.dvar(())
+        z = a.rvar(())
+        F = a.ambiguity()
+        for s, v in enumerate([1.0, 2.5, 4.0]):
+            a.supp(F, [s], a.eq(z, v))
+        a.prob(F, a.kldiv(p, A([0.25, 0.5, 0.25]), 0.125))
+        a.minsup(a.E(a.maxof(2.0 * (x - z), 1.5 * (z - x))), F)
+        a.st(a.ge(x, 0.0))
+        a.st(a.le(x, 5.0))
+
+    @reg
+    def kl_affine_cost(a):
+        p = a.scen(3)
+        x = a.dvar(2)
+        z = a.rvar(2)
+        F = a.ambiguity()
+        for s, v in enumerate([[1.0, 0.0], [0.0, 1.0], [-1.0, 0.5]]):
+            a.supp(F, [s], a.eq(z, A(v)))
+        a.prob(F, a.kldiv(p, A([0.5, 0.25, 0.25]), 0.0625), a.ge(p, A([0.375, 0.0, 0.0])))
+        a.minsup(a.E(a.sum(x * z) + 0.5 * x[0]), F)
+        a.st(a.ge(x, -1.0))
+        a.st(a.le(x, 1.0))
+        a.st(a.eq(a.sum(x), 0.5))
+
+    @reg
+    def kl_box_supports(a):
+        """KL probabilities and interval supports per scenario."""
+        p = a.scen(2)
+        x = a.dvar(())
+        z = a.rvar(())
+        F = a.ambiguity()
+        a.supp(F, [0], a.ge(z, 0.0), a.le(z, 1.0))
+        a.supp(F, [1], a.ge(z, 2.0), a.le(z, 3.0))
+        a.prob(F, a.kldiv(p, A([0.5, 0.5]), 0.125))
+        a.minsup(a.E(a.maxof(x - z, 0.5 * (z - x))), F)
+        a.st(a.ge(x, -1.0))
+        a.st(a.le(x, 4.0))
+
+    @reg
+    def kl_expectation_constraint(a):
+        p = a.scen(3)
+        x = a.dvar(())
+        y = a.dvar(())
+        z = a.rvar(())
+        F = a.ambiguity()
+        for s, v in enumerate([0.5, 1.0, 2.0]):
+            a.supp(F, [s], a.eq(z, v))
+        a.prob(F, a.kldiv(p, A([0.25, 0.25, 0.5]), 0.125))
+        a.minsup(a.E(y - x), F)
+        a.st(a.le(a.E(x * z - y), 0.0), forall=F)
+        a.st(a.ge(x, 0.0))
+        a.st(a.le(x, 2.0))
+        a.st(a.ge(y, -5.0))
+        a.st(a.le(y, 5.0))
+
+    @reg
+    def kl_eventwise(a):
+        """Event-wise recourse under a KL ball."""
+        p = a.scen(3)
+        x = a.dvar(())
+        y = a.dvar(())
+        z = a.rvar(())
+        a.evt(y, [2])
+        F = a.ambiguity()
+        for s, v in enumerate([1.0, 2.0, 4.0]):
+            a.supp(F, [s], a.eq(z, v))
+        a.prob(F, a.kldiv(p, A([0.5, 0.25, 0.25]), 0.125))
+        a.minsup(a.E(x + 2.0 * y), F)
+        a.st(a.ge(x + y, z), forall=F)
+        a.st(a.ge(x, 0.0))
+        a.st(a.ge(y, 0.0))
+        a.st(a.le(x, 10.0))
+        a.st(a.le(y, 10.0))
+
+    @reg
+    def entropy_probabilities(a):
+        p = a.scen(3)
+        x = a.dvar(())
+        z = a.rvar(())
+        F = a.ambiguity()
+        for s, v in enumerate([1.0, 2.5, 4.0]):
+            a.supp(F, [s], a.eq(z, v))
+        a.prob(F, a.entropy_ge(p, 1.0))
+        a.minsup(a.E(a.maxof(2.0 * (x - z), 1.5 * (z - x))), F)
+        a.st(a.ge(x, 0.0))
+        a.st(a.le(x, 5.0))
+    return M
+
+
 # ------------------------------------------------------------------ seeded random members
 def random_member(seed):
     """A random dro model inside the structural bound (1-3 scenarios, dim z <= 2, polyhedral sets,
@@ -312,6 +413,9 @@ def lookup(name):
     M = members()
     if name in M:
         return M[name]
+    K = kl_members()
+    if name in K:
+        return K[name]
     if name.startswith('rand'):
         return random_member(int(name[4:]))
     raise KeyError(name)
